@@ -411,6 +411,30 @@ def check(P, R):
     ok = bool(dumps) and gd.edge_dominates(jt[0], jlab, gd.node_of_stmt(dumps[0])[0]) and \
         isinstance(T.expand(de, dumps[0].args[0], gd.node_of_stmt(dumps[0])[0]), (ast.Call, ast.Dict))
     R.ob('C20.e', de, dumps[0] if dumps else de.node, ok, text='JSON requested -> json.dumps(dict(...))', detail='' if ok else 'the JSON error body is not produced by json.dumps of a dict')
+    # ... and what json.dumps produced is what is returned: the only operations between the two are re-encodings of the whole text
+    for dc in dumps:
+        par = getattr(dc, '_p', None)
+        chain = []
+        cur = dc
+        while isinstance(par, ast.Attribute) and isinstance(getattr(par, '_p', None), ast.Call) and par._p.func is par:
+            chain.append(par._p)
+            cur = par._p
+            par = getattr(cur, '_p', None)
+        # later rewrites of the variable the text was stored in
+        st_ = stmt_of(dc)
+        if isinstance(st_, ast.Assign) and len(st_.targets) == 1 and isinstance(st_.targets[0], ast.Name):
+            nm_ = st_.targets[0].id
+            sn_ = gd.node_of_stmt(st_)[0]
+            for c2 in walk_shallow(de.node):
+                if isinstance(c2, ast.Call) and isinstance(c2.func, ast.Attribute) and isinstance(c2.func.value, ast.Name) and c2.func.value.id == nm_ \
+                        and gd.node_of_stmt(c2) and gd.can_reach(sn_, gd.node_of_stmt(c2)[0]) and gd.node_of_stmt(c2)[0] is not sn_:
+                    chain.append(c2)
+        for c2 in chain:
+            okc = call_attr(c2) in ('encode', 'decode', 'strip')
+            R.ob('C20.e', de, c2, okc, text=f'`{short(c2)}`: the text json.dumps produced is returned as it is', detail='' if okc else
+                 f'`{short(c2)}` rewrites the serialised text: the JSON grammar knows the escapes json.dumps itself emits and no others (\\x3c is a JavaScript escape, not a JSON '
+                 f'one), and a replacement outside string literals breaks the structure - the body no longer parses',
+                 why='when JSON is requested the error body is valid JSON', key_extra='json-post-processed')
     # what json.dumps is given can be encoded: the values of the dict are text (repr(..), the error body, the traceback *text*).  The traceback slot of
     # every HTTPError the framework builds holds formatted text or None, never a traceback object
     n_tb = 0
